@@ -25,6 +25,14 @@ func (ex *Exec) evalCall(e *ast.CallExpr, st *State) Value {
 		}
 		// spec prelude intercepts
 		switch id.Name {
+		case "allocated":
+			if _, isFn := ex.objOf(id).(*types.Func); isFn && ex.isPrelude(ex.objOf(id)) {
+				v := ex.eval(e.Args[0], st)
+				if r, ok := v.(*HeapRefV); ok {
+					return ex.heapAllocated(st, r)
+				}
+				return ex.ts.Not(ex.eqValue(v, ex.zeroValue(ex.typeOf(e.Args[0]))))
+			}
 		case "unfold":
 			if _, isFn := ex.objOf(id).(*types.Func); isFn && ex.isPrelude(ex.objOf(id)) {
 				return ex.evalUnfold(e, st)
@@ -518,6 +526,15 @@ func (ex *Exec) callOpaqueSpec(fi *FuncInfo, recv Value, args []Value, st *State
 				unsupported("opaque spec function applied to nil")
 			}
 			flat(ex.getPath(ex.load(st, x.Loc), x.Path, st, 0))
+		case *HeapRefV:
+			leaves = append(leaves, x.Ref)
+			for _, l := range x.Cls.locs {
+				leaves = append(leaves, ex.load(st, l).(*Term))
+			}
+		case *MapV:
+			if !x.Nil {
+				leaves = append(leaves, x.Val)
+			}
 		case *UFArrayV:
 			// tables are identified by name
 		case nil:
